@@ -44,7 +44,7 @@ WALL_LIMIT = {('C02', 'quick'): 240, ('C02', 'thorough'): 240}
 PROBES = {
     'C01': ['page_with_over_1000_links', 'linked_and_embedded', 'cycle', 'diamond', 'self_link', 'duplicate_link', 'alt_spelling', 'redirect', 'requisites', 'css_url', 'concurrency>1',
             'depth_limited', 'no_parent', 'regex', 'multi_start', 'redirect_target_also_linked', 'depth_race_possible', 'keepalive_off'],
-    'C02': ['ftp_scope_variant', 'ftp_glob', 'ftp_file_fetched', 'robots_fetch_failed', 'robots_redirected_out', 'robots_redirect_followed', 'offered_foreign_host', 'offered_upward_path', 'offered_deep', 'offered_regex_rejected', 'offered_excluded_dir',
+    'C02': ['ftp_links_offered', 'ftp_link_followed', 'ftp_scope_variant', 'ftp_glob', 'ftp_file_fetched', 'robots_fetch_failed', 'robots_redirected_out', 'robots_redirect_followed', 'offered_foreign_host', 'offered_upward_path', 'offered_deep', 'offered_regex_rejected', 'offered_excluded_dir',
             'offered_rejected_suffix', 'cross_host_redirect', 'waiver_used', 'retry', 'requests_attributed', 'span_hosts_allow',
             'domains', 'hostnames', 'https_only', 'tries'],
     'C20': ['robots_disallow', 'robots_allow_all', 'robots_404', 'robots_5xx', 'robots_redirect', 'robots_redirect_to_other_origin', 'many_origins', 'robots_with_non_utf8_bytes', 'robots_big', 'robots_netfault', 'tag_options', 'sitemaps_option', 'nofollow_page',
@@ -426,6 +426,8 @@ def argv_for(opts, starts, dbpath, extra=()):
         argv += ['--max-redirect', str(opts['max_redirect'])]
     if opts.get('sitemaps'):
         argv.append('--sitemaps')
+    if opts.get('follow_ftp'):
+        argv.append('--follow-ftp')
     if opts.get('page_requisites_level') not in (None, 5):
         argv += ['--page-requisites-level', str(opts['page_requisites_level'])]
     argv += list(extra)
@@ -697,6 +699,32 @@ def gen_c02(tape, tier):
         if cand:
             f = cand[tape.draw(len(cand), 'site.flaky.which')]
             flaky.append((f, tape.choice((1, 2, 5, 30), 'site.flaky.n')))
+    # pages that link to FTP URLs: followed only with --follow-ftp, and then under the same host / directory rules
+    site.ftp_tree = None
+    if tape.chance(1, 8, 'site.ftp_links'):
+        from harness import ftpcrawl
+        site.ftp_tree = ftpcrawl.gen_tree(tape)
+        targets = sorted(p for p, v in site.ftp_tree.items() if isinstance(v, bytes)) + ['/']
+        mode = tape.choice(('no-follow-ftp', 'no-follow-ftp', 'follow-but-foreign-host', 'follow-but-host-excluded', 'follow'), 'site.ftp_links.mode')
+        site.ftp_mode = mode
+        if mode != 'no-follow-ftp':
+            opts['follow_ftp'] = True
+        if mode in ('follow-but-host-excluded', 'follow'):
+            opts['span_hosts'] = True
+            opts.pop('span_hosts_allow', None)
+            if mode == 'follow-but-host-excluded':
+                opts['exclude_hostnames'] = ['ftp.test']
+            for k in ('domains', 'hostnames'):
+                opts.pop(k, None)
+        elif opts.get('span_hosts') or opts.get('span_hosts_allow'):
+            opts.pop('span_hosts', None)
+            opts.pop('span_hosts_allow', None)
+            for k in ('domains', 'hostnames', 'exclude_domains', 'exclude_hostnames'):
+                opts.pop(k, None)
+        for _ in range(tape.between(1, 3, 'site.ftp_links.n')):
+            src = pages[tape.draw(len(pages), 'site.ftp_links.from')]
+            u = 'ftp://ftp.test' + targets[tape.draw(len(targets), 'site.ftp_links.to')]
+            src.extra_html += '<a href="%s">ftp</a>\n' % u       # (kept out of the graph: the reference never fetches FTP URLs of the HTTP site)
     # --https-only: the crawl starts on an https origin of the same host; every http link it meets is out of scope
     if tape.chance(1, 10, 'opt.https_only'):
         sec = site.add_origin('https', 'site.test', 443, ip=main.ip)
@@ -893,7 +921,12 @@ def run(tape, prop, tier):
         dbpath = os.path.join(sandbox, 'db.sqlite')
         argv = argv_for(opts, [s.url for s in starts], dbpath)
 
+        ftp_servers = []
+
         def setup(h, server, net):
+            if getattr(site, 'ftp_tree', None) is not None and prop == 'C02':
+                from harness import ftpcrawl
+                ftp_servers.append(ftpcrawl.FtpTreeServer(h, net, site.ftp_tree, mlsd=tape.chance(1, 2, 'site.ftp.mlsd')))
             for o, n, kind in getattr(site, 'flaky_robots', []):
                 st = {'left': n}
 
@@ -961,6 +994,16 @@ def run(tape, prop, tier):
                 r.violate('C02', 'crash', 'exception-escaped-app-run', out['exception'][-1200:])
             judge_c02(r, site, starts, opts, out, rows)
             judge_c02_robots(r, site, starts, opts, out)
+            if ftp_servers:
+                r.probes['ftp_links_offered'] += 1
+                for e in ftp_servers[0].log:
+                    if site.ftp_mode == 'follow':
+                        r.probes['ftp_link_followed'] += 1
+                        continue
+                    rec = e['rec'] or {}
+                    r.violate('C02', 'out-of-scope-request', 'ftp-command-for-rejected-url:' + site.ftp_mode,
+                              '%s %s was sent to the FTP server for item %s although its URL is out of scope (%s); options %r'
+                              % (e['verb'], e['target'], rec.get('url'), site.ftp_mode, {k: v for k, v in opts.items() if v not in (None, False, ())}))
             offered = sum(r.probes.get(k, 0) for k in ('offered_foreign_host', 'offered_upward_path', 'offered_regex_rejected', 'offered_excluded_dir'))
             r.nontrivial = offered >= 1 and len(out['server'].log) >= 3
         r.workload = ({k: v for k, v in opts.items() if v not in (None, False, ())}, [s.url for s in starts], concurrency,
